@@ -15,6 +15,7 @@ import (
 	"io"
 	"net"
 	"net/http"
+	"net/http/httptrace"
 	"regexp"
 	"runtime"
 	"sort"
@@ -342,7 +343,17 @@ func doTaggedBody(c *req.Client, base, tag, kind, round string, clone bool, dump
 	}
 	rq := c.R().SetHeader("X-Tag", tag).SetHeader("X-Round", round)
 	if !clone {
-		rq.SetContext(perturbCtx{context.Background(), &perturbCounter})
+		var ctx context.Context = perturbCtx{context.Background(), &perturbCounter}
+		if len(tag)%5 == 0 || strings.HasSuffix(tag, "3") {
+			// another goroutine's CloseIdleConnections at the moment this request has picked its
+			// connection (h1: delivered; h2: stream slot reserved, stream not open; the hook is
+			// called exactly there): a connection in use must survive it
+			var once sync.Once
+			ctx = httptrace.WithClientTrace(ctx, &httptrace.ClientTrace{GotConn: func(httptrace.GotConnInfo) {
+				once.Do(func() { c.GetTransport().CloseIdleConnections() })
+			}})
+		}
+		rq.SetContext(ctx)
 	}
 	if clone {
 		rq.SetHeader("X-Clone", "1")
